@@ -15,6 +15,7 @@
 #include "vh.h"
 
 int env_locks_held   = 0;
+int env_sched_depth  = 0; /* 0: the outer operation, 1: an operation of another thread run at a yield point */
 int env_cv_wakes     = 0;
 int env_cv_wait_ok   = 0;
 int env_cv_waits     = 0;
@@ -39,15 +40,18 @@ nni_mtx_fini(nni_mtx *m)
 void
 nni_mtx_lock(nni_mtx *m)
 {
+	/* held by a suspended frame of another (simulated) thread: this schedule is
+	 * not executable as a nested one (the real thread would wait) - prune it */
+	ASSUME(*env_mtx_word(m) == 0 || *env_mtx_word(m) == env_sched_depth + 1);
 	CHECK(*env_mtx_word(m) == 0, "nni_mtx_lock of a mutex already held (self-deadlock)");
 	ASSUME(*env_mtx_word(m) == 0);
-	*env_mtx_word(m) = 1;
+	*env_mtx_word(m) = env_sched_depth + 1;
 	env_locks_held++;
 }
 void
 nni_mtx_unlock(nni_mtx *m)
 {
-	CHECK(*env_mtx_word(m) == 1, "nni_mtx_unlock of a mutex not held");
+	CHECK(*env_mtx_word(m) == env_sched_depth + 1, "nni_mtx_unlock of a mutex not held by this thread");
 	*env_mtx_word(m) = 0;
 	env_locks_held--;
 #ifdef ENV_HAVE_YIELD
@@ -83,9 +87,15 @@ nni_cv_wait(nni_cv *cv)
 {
 	(void) cv;
 	env_cv_waits++;
+	if (env_sched_depth > 0) {
+		/* the nested operation would have to wait for the suspended outer thread:
+		 * not a nested schedule - pruned */
+		ASSUME(0);
+	}
 	CHECK(env_cv_wait_ok, "nni_cv_wait would block forever in a sequential run");
 	ASSUME(env_cv_wait_ok);
 }
+#ifndef ENV_NO_CV_UNTIL
 int
 nni_cv_until(nni_cv *cv, nni_time when)
 {
@@ -94,6 +104,7 @@ nni_cv_until(nni_cv *cv, nni_time when)
 	env_cv_waits++;
 	return (NNG_ETIMEDOUT);
 }
+#endif
 
 /* ---- atomics ---------------------------------------------------------- */
 bool
